@@ -174,6 +174,42 @@ func ruleTxErr(c *core.Ctx, rule string, pkg *packages.Package, exempt map[strin
 				}
 			}
 		}
+		// (c) an error that is assigned must also be looked at: per path, every distinct tx call has its result tested or returned
+		for _, p := range paths {
+			calls := map[string]map[string]bool{}
+			for _, e := range p.Events {
+				if e.Kind == "call" && strings.HasPrefix(e.Name, "tx.") {
+					m := strings.TrimPrefix(e.Name, "tx.")
+					if calls[m] == nil {
+						calls[m] = map[string]bool{}
+					}
+					calls[m][e.Recv+"("+strings.Join(e.Args, ",")+")"] = true
+				}
+			}
+			checked := map[string]map[string]bool{}
+			for _, l := range p.Lits {
+				if strings.HasPrefix(l.Name, "txerr:") {
+					m := strings.TrimPrefix(l.Name, "txerr:")
+					if checked[m] == nil {
+						checked[m] = map[string]bool{}
+					}
+					checked[m][l.Key] = true
+				}
+			}
+			for m, set := range calls {
+				returned := 0
+				if len(p.Rets) > 0 && strings.Contains(p.Rets[len(p.Rets)-1], "."+m+"(") {
+					returned = 1
+				}
+				if len(set) > len(checked[m])+returned {
+					if _, ex := exempt[b.name+"."+m]; ex {
+						continue
+					}
+					bad = true
+					c.Fail(rule, b.name+"#unchecked:"+m, p.RetPos, "on this path tx.%s is called %d time(s) with different arguments but its error is tested %d time(s): an error that is assigned and never looked at lets a failed step commit (the old index entry stays, the object is listed twice); path [%s]", m, len(set), len(checked[m])+returned, p.Cond())
+				}
+			}
+		}
 		if !bad {
 			c.Ok(rule, b.name)
 		}
